@@ -62,6 +62,8 @@ fn class(v: &Value) -> String {
 pub fn pool_specs() -> Vec<J> {
     let mut p: Vec<J> = vec![json!(["null"])];
     for i in [i64::MIN, i64::MIN + 1, -(1i64 << 53) - 1, -(1i64 << 53), -2, -1, 0, 1, 2, 3, 1 << 53, (1 << 53) + 1, i64::MAX - 1, i64::MAX] { p.push(json!(["int", i.to_string()])); }
+    // NaNs with different bit patterns (quiet, negative - what sqrt(-1.0) returns on x86 -, with payload) must be one equality class
+    for bits in [0xFFF8_0000_0000_0000u64, 0x7FF8_0000_0000_0001u64] { p.push(real_spec(f64::from_bits(bits))); }
     for x in [f64::NAN, f64::NEG_INFINITY, -1e308, -9007199254740992.0, -1.5, -1.0, -0.0, 0.0, 5e-324, 0.5, 1.0, 1.5, 2.0, 3.0, 9007199254740992.0, 9.223372036854775807e18, 1e308, f64::INFINITY] { p.push(real_spec(x)); }
     p.push(json!(["bool", false])); p.push(json!(["bool", true]));
     for s in ["", "a", "A", "ab", "b", "\u{e5}", "a\u{0}", "\u{1F600}", "1", "NULL"] { p.push(json!(["text", s])); }
@@ -153,7 +155,7 @@ fn check_triple(a: &Value, b: &Value, c: &Value, out: &mut Vec<Violation>, obs: 
 // ---------------------------------------------------------------------------------------------
 // consumer level
 
-const REAL_TEXTS: &[&str] = &["0.0", "-0.0", "1.0", "1", "1.5", "-1.5", "2.5", "1e2", "100", "inf", "-inf", "NaN", "1e308", "5e-324", "0.1", "3"];
+const REAL_TEXTS: &[&str] = &["0.0", "-0.0", "1.0", "1", "1.5", "-1.5", "2.5", "1e2", "100", "inf", "-inf", "NaN", "-NaN", "1e308", "5e-324", "0.1", "3"];
 
 fn real_class_key(x: f64) -> String { if x.is_nan() { "nan".into() } else if x == 0.0 { "0".into() } else { format!("{:?}", x) } }
 
@@ -275,7 +277,7 @@ fn random_value(rng: &mut Rng, depth: u32) -> J {
     match rng.below(if depth == 0 { 7 } else { 9 }) {
         0 => json!(["null"]),
         1 | 2 => json!(["int", (*rng.pick(&[0i64, 1, -1, 2, i64::MAX, i64::MIN, 1 << 53, 7])).to_string()]),
-        3 | 4 => real_spec(*rng.pick(&[0.0, -0.0, 1.0, 2.0, f64::NAN, f64::INFINITY, f64::NEG_INFINITY, 0.5, 9007199254740992.0])),
+        3 | 4 => real_spec(*rng.pick(&[0.0, -0.0, 1.0, 2.0, f64::NAN, f64::from_bits(0xFFF8_0000_0000_0000), f64::INFINITY, f64::NEG_INFINITY, 0.5, 9007199254740992.0])),
         5 => json!(["text", *rng.pick(&["", "a", "b", "ab"])]),
         6 => json!(["bool", rng.chance(1, 2)]),
         _ => {
